@@ -9,8 +9,13 @@ cd "$ROOT/sanit/miri" || exit 3
 cp /repo/Cargo.lock Cargo.lock 2>/dev/null
 LOG="$(mktemp /tmp/verif-miri-XXXXXX.log)"
 export CARGO_NET_OFFLINE=true
-MIRIFLAGS="-Zmiri-disable-isolation -Zmiri-many-seeds=$SEEDS" timeout --signal=KILL 3000 cargo +nightly miri run --offline -- "$W" >"$LOG" 2>&1
-RC=$?
+# one interpreter run per Miri seed (its scheduler and address choices), one after the other: the
+# file-backed workloads use a scratch directory per run
+case "$SEEDS" in *..*) LO="${SEEDS%%..*}"; HI="${SEEDS##*..}";; *) LO=0; HI="$SEEDS";; esac
+RC=0; : >"$LOG"
+for S in $(seq "$LO" $((HI-1))); do
+  MIRIFLAGS="-Zmiri-disable-isolation -Zmiri-seed=$S" timeout --signal=KILL 1500 cargo +nightly miri run --offline -- "$W" "$S" >>"$LOG" 2>&1 || { RC=$?; break; }
+done
 if grep -q "LANE-WORKLOAD $W" "$LOG" && [ $RC -eq 0 ]; then
   echo "LANE miri $W status=clean seeds=$SEEDS $(grep -m1 'LANE-WORKLOAD' "$LOG") log=$LOG"; exit 0
 fi
